@@ -448,6 +448,41 @@ def scalar_order(Q, d, M=sv):
     return M.sqrt(M.mul(M.div(d, d - 1), trace_sq(Q, d, M)))
 
 
+def neighbour_model(N):
+    """abstract neighbour list: cn(n, i) >= 0 neighbours nb(n, i, k), k < cn, ids valid by construction (clamped into [0, N-1])"""
+    import z3
+    cnf = z3.Function("nb_cn", z3.IntSort(), z3.IntSort(), z3.IntSort())
+    nbf = z3.Function("nb_id", z3.IntSort(), z3.IntSort(), z3.IntSort(), z3.IntSort())
+    cn = lambda n, i: sv.SV(cnf(sv.znum(n), sv.znum(i)))
+    nb = lambda n, i, k: sv.maxv(0, sv.minv(sv.SV(nbf(sv.znum(n), sv.znum(i), sv.znum(k))), sv.sub(N, 1)))
+
+    def cg_spec(val_of, n, i):
+        return sv.div(sv.add(val_of(i), Sum(0, cn(n, i), lambda k: val_of(nb(n, i, k)))), sv.add(1, cn(n, i)))
+    return cn, nb, cg_spec
+
+
+def neighbour_diag_sums(pos, nb, n, i, m, d=2):
+    """S_xx(m) = sum_{k<m} Q_xx(nb(n,i,k)) for the raw tensor Q = (d u u^T - I)/2"""
+    raw = lambda j: q_tensor([pos(n, j, c) for c in range(d)], d)
+    return [Sum(0, m, lambda k, x=x: raw(nb(n, i, k))[x][x]) for x in range(d)]
+
+
+def nematic_lemmas():
+    """sum_{k<m} tr Q(nb_k) = 0 for unit directors, by induction on m (base m = 0; step uses the unit-director
+    precondition at particle nb(n0, i0, m)); on the same terms as the neighbour-averaged unit"""
+    import z3
+    N, n0, i0, m = sv.integer("N"), sv.integer("n0"), sv.integer("i0"), sv.integer("m_ind")
+    posf = z3.Function("ori_pos", z3.IntSort(), z3.IntSort(), z3.IntSort(), z3.RealSort())
+    pos = lambda n, i, c: sv.SV(posf(sv.znum(n), sv.znum(i), sv.znum(c)))
+    cn, nb, _ = neighbour_model(N)
+    S = lambda mm: neighbour_diag_sums(pos, nb, n0, i0, mm)
+    j = nb(n0, i0, m)
+    unit = sv.cmp("==", sv.add(sv.mul(pos(n0, j, 0), pos(n0, j, 0)), sv.mul(pos(n0, j, 1), pos(n0, j, 1))), 1)
+    base = sv.cmp("==", _sum(S(0)), 0)
+    step = sv.implies(sv.and_(sv.cmp(">=", m, 0), sv.cmp("==", _sum(S(m)), 0), unit), sv.cmp("==", _sum(S(A.simp(sv.add(m, 1)))), 0))
+    return [("lemma:neighbour-sum-of-traces=0:base", base), ("lemma:neighbour-sum-of-traces=0:step", step)]
+
+
 class Nematic(Unit):
     module = NEM
     qualname = "NematicOrder.tensor"
@@ -495,14 +530,7 @@ class Nematic(Unit):
         ctx.assume(N >= 1)
         snaps, acc = make_snapshots(ctx, "ori", T, N, d)
         n0, i0 = ctx.int("n0"), ctx.int("i0")
-        cnf = z3.Function("nb_cn", z3.IntSort(), z3.IntSort(), z3.IntSort())
-        nbf = z3.Function("nb_id", z3.IntSort(), z3.IntSort(), z3.IntSort(), z3.IntSort())
-        cn = lambda n, i: sv.SV(cnf(sv.znum(n), sv.znum(i)))
-        # neighbour ids are valid particle indices (by construction: the raw id clamped into [0, N-1]), counts are >= 0
-        nb = lambda n, i, k: sv.maxv(0, sv.minv(sv.SV(nbf(sv.znum(n), sv.znum(i), sv.znum(k))), sv.sub(N, 1)))
-
-        def cg_spec(val_of, n, i):
-            return sv.div(sv.add(val_of(i), Sum(0, cn(n, i), lambda k: val_of(nb(n, i, k)))), sv.add(1, cn(n, i)))
+        cn, nb, cg_spec = neighbour_model(N)
         inp = dict(d=d, T=T, N=N, acc=acc, n0=n0, i0=i0, nbm=nbm, sc=sc, cg_spec=cg_spec, cn=cn, nb=nb)
         ctx.interp.summaries.update(self._summaries(inp))
         ctx.assume(cn(n0, i0) >= 0)
@@ -516,9 +544,9 @@ class Nematic(Unit):
         names = ["result-shape=[nsnapshots,nparticle]", "Q-tensor(stored,saved)=(d u u^T - I)/2" + ("-neighbour-averaged" if nbm != "raw" else ""),
                  "frame:trajectory-not-written", "result-saved-to-file"]
         names.append("scalar=sqrt(d/(d-1) tr Q^2)" if sc == "trace" else "scalar=2*largest-eigenvalue-of-Q")
-        if nbm == "raw":
-            names += ["lemma:Q-symmetric-traceless-for-unit-director", "lemma:sqrt(d/(d-1) tr Q^2)=2*largest-eigenvalue(2D)"]
-        else:
+        names += ["lemma:Q-symmetric-traceless-for-unit-director" + ("s(neighbour-mean)" if nbm != "raw" else ""),
+                  "lemma:sqrt(d/(d-1) tr Q^2)=2*largest-eigenvalue(2D)"]
+        if nbm != "raw":
             names += ["neighbour-average-called-on-raw-Q-tensor"]
         return names
 
@@ -568,18 +596,24 @@ class Nematic(Unit):
         else:
             lam = eig_values(q, d)
             yield "scalar=2*largest-eigenvalue-of-Q", sv.implies(hyp, sv.cmp("==", got, sv.mul(2, sv.maxv(lam[0], lam[1]))))
+        u = [inp["acc"]["pos"](n0, i0, c) for c in range(d)]
+        unit = sv.cmp("==", _sum([sv.mul(x, x) for x in u]), 1)
         if inp["nbm"] == "raw":
-            u = [inp["acc"]["pos"](n0, i0, c) for c in range(d)]
-            unit = sv.cmp("==", _sum([sv.mul(x, x) for x in u]), 1)
             yield ("lemma:Q-symmetric-traceless-for-unit-director",
                    sv.implies(unit, sv.and_(sv.cmp("==", Q[0][1], Q[1][0]), sv.cmp("==", sv.add(Q[0][0], Q[1][1]), 0))))
-            # for symmetric traceless 2x2 Q = [[a, b], [b, -a]] with eigenvalues l0, l1 (assumed eig contract: l0 + l1 = tr = 0,
-            # l0 l1 = det = -(a^2 + b^2)):  sqrt(2 tr Q^2) = 2 max(l0, l1)
-            a, b, l0, l1 = sv.real("qa"), sv.real("qb"), sv.real("l0"), sv.real("l1")
-            Qg = [[a, b], [b, sv.neg(a)]]
-            yield ("lemma:sqrt(d/(d-1) tr Q^2)=2*largest-eigenvalue(2D)",
-                   sv.implies(sv.and_(*vieta_facts(Qg, 2, [l0, l1])), sv.cmp("==", scalar_order(Qg, 2), sv.mul(2, sv.maxv(l0, l1)))))
         else:
+            # sum_k tr Q(nb_k) = 0 over the cn neighbours: lemma C17:lemma:neighbour-sum-of-traces=0 (induction, extra_checks)
+            Sd = neighbour_diag_sums(inp["acc"]["pos"], inp["nb"], n0, i0, inp["cn"](n0, i0))
+            hyp2 = sv.and_(unit, sv.cmp(">=", inp["cn"](n0, i0), 0), sv.cmp("==", _sum(Sd), 0))
+            goal = sv.implies(hyp2, sv.and_(sv.cmp("==", Q[0][1], Q[1][0]), sv.cmp("==", sv.add(Q[0][0], Q[1][1]), 0)))
+            yield "lemma:Q-symmetric-traceless-for-unit-directors(neighbour-mean)", sv.generalize(goal, Sd)[0], {"solver_opts": {}}
+        # for symmetric traceless 2x2 Q = [[a, b], [b, -a]] with eigenvalues l0, l1 (assumed eig contract: l0 + l1 = tr = 0,
+        # l0 l1 = det = -(a^2 + b^2)):  sqrt(2 tr Q^2) = 2 max(l0, l1)
+        a, b, l0, l1 = sv.real("qa"), sv.real("qb"), sv.real("l0"), sv.real("l1")
+        Qg = [[a, b], [b, sv.neg(a)]]
+        yield ("lemma:sqrt(d/(d-1) tr Q^2)=2*largest-eigenvalue(2D)",
+               sv.implies(sv.and_(*vieta_facts(Qg, 2, [l0, l1])), sv.cmp("==", scalar_order(Qg, 2), sv.mul(2, sv.maxv(l0, l1)))), {"solver_opts": {}})
+        if inp["nbm"] != "raw":
             a, nmax = inp.get("cg_called_with", (None, None))
             rawQ = q_tensor([inp["acc"]["pos"](n0, i0, c) for c in range(d)], d)
             okc = isinstance(a, A.Arr) and a.ndim == 4
@@ -1354,13 +1388,48 @@ def replay_extra(rec):
     return {"ran": True, "failed": bool(missing), "detail": f"{m}.{q} references {missing}, absent from numpy {np.__version__}"}
 
 
+def tetra_lemmas():
+    """perfect tetrahedral coordination: four unit bond directions u_1..u_4 with u_1+..+u_4 = 0 and equal mutual angles
+    have cos psi = -1/3 (so the order parameter is exactly 1 by the unit's lemma clause):
+       |sum_a u_a|^2 = sum_a |u_a|^2 + 2 sum_{a<b} u_a.u_b        (ring identity)
+       0 = 4 + 12 c  =>  c = -1/3                                   (linear)"""
+    u = [[sv.real(f"u{a}_{c}") for c in range(3)] for a in range(4)]
+    dot = lambda x, y: _sum([sv.mul(p, q) for p, q in zip(x, y)])
+    tot = [_sum([u[a][c] for a in range(4)]) for c in range(3)]
+    lhs = dot(tot, tot)
+    rhs = sv.add(_sum([dot(u[a], u[a]) for a in range(4)]), sv.mul(2, _sum([dot(u[a], u[b]) for a in range(4) for b in range(a + 1, 4)])))
+    n2 = [sv.real(f"nn{a}") for a in range(4)]
+    dd = [sv.real(f"dd{k}") for k in range(6)]
+    c, s2 = sv.real("cc"), sv.real("ss")
+    hyp = sv.and_(sv.cmp("==", s2, sv.add(_sum(n2), sv.mul(2, _sum(dd)))), sv.cmp("==", s2, 0), *([sv.cmp("==", x, 1) for x in n2] + [sv.cmp("==", x, c) for x in dd]))
+    return [("lemma:tetrahedron:|sum u|^2=sum|u|^2+2*sum_{a<b}u_a.u_b", sv.cmp("==", lhs, rhs)),
+            ("lemma:tetrahedron:unit-bonds,zero-sum,equal-angles=>cos=-1/3", sv.implies(hyp, sv.cmp("==", c, sv.div(-1, 3))))]
+
+
 def extra_checks(tier, seed, repo):
     from pyvc.vc import prove_lemmas
-    obs = prove_lemmas("C17", gyration_lemmas())
+    obs = prove_lemmas("C17", gyration_lemmas() + tetra_lemmas() + nematic_lemmas())
     obs += existence_probe(repo)
     return {"obligations": obs}
 
 
-NOT_DECIDED = []
-TRUSTED = []
-MANIFEST = {"text": "", "note": ""}
+NOT_DECIDED = [
+    "floating-point accuracy of every formula (A1): 0 * log(0) = nan for an empty neighbourhood, division by log10(Rg) = 0 at Rg = 1, the literal 1.0/3 and 3.0/8 are exact rationals here",
+    "complex-typed eigenvalues that np.linalg.eig may return for numerically asymmetric input: the assumed eig contract covers real symmetric input only (symmetry of the matrix handed to eig is a proved side obligation)",
+    "tetrahedral order when two particles coincide or when the fourth and fifth nearest distances tie: the statement's 'four nearest' is then not unique (the clause proves: no unselected particle is strictly closer than a selected one)",
+    "3-D nematic order: NematicOrder.tensor asserts ndim == 2 (documented: only two-dimensional systems are supported)",
+    "that remove_pbc returns the minimum image (property C02; used here as an opaque function of (row, cell, mask)) and that spatial_average returns the neighbour mean (property C16; callee contract assumed at the call site)",
+    "purity of gyration_tensor (it recentres the caller's array in place): property C18, reported there",
+]
+TRUSTED = [
+    "assumed library contracts of pyvc/libext/C17.py: np.linalg.eig (real symmetric 2x2/3x3: eigenvalues are functions of the entries, Vieta relations, no order), np.sort (<= 3 values), np.log10 = log/log(10), np.trapz/np.trapezoid = trapezoid sum, np.delete (one row), np.argpartition (relational: permutation, partition property, kth < n required), ndarray.max over a symbolic axis (attained, bounds the end elements), np.unique (multiplicities sum to n)",
+    "callee contracts used at call sites: utils.pbc.remove_pbc as an opaque function MINIMG(row, cell, mask) with remove_pbc(0) = 0 (C02 clause a) - its precondition det(H) != 0 is an input assumption for every frame and is not re-checked at the call sites; utils.coarse_graining.spatial_average = (x_i + sum over the listed neighbours x_j) / (1 + cn_i) for an abstract neighbour list with valid ids (C16); s2_integral (own unit)",
+    "written loop summary contracts.C17.masked_accumulation_summary for `for j, rij in enumerate(distance[condition])` (guarded accumulation over a boolean-mask selection); its init/step obligations are generated from two executions of the real loop body and discharged like synthesised summaries",
+    "input model: a trajectory is a list of T frames (T symbolic) of the same particle number N (symbolic) and box lengths (the functions assert this); species ids lie in 1..K and neighbour ids in 0..N-1 by construction; directors are unit vectors only where a lemma says so; no two particles coincide (tetrahedral clauses about the selection)",
+    "induction principle for the lemma sum_t (x_t - mean)^2 >= 0 (base and step are proved obligations)",
+    "opt-in proof accelerator pyvc.solve.abstract_nonlinear: products / quotients / powers replaced by uninterpreted functions (sound for unsat)",
+]
+MANIFEST = {
+    "text": "Real ASTs of gyration_tensor, s2_integral, S2.__init__, S2.particle_s2, q8_tetrahedral, NematicOrder.tensor, for symbolic frame number T, particle number N, species number K, bin number ndelta (no bound). gyration_tensor (d=2,3): the matrix handed to eig is the centred second-moment tensor (1/N) sum_i (r_i - rbar)(r_i - rbar)^T, it is symmetric, Rg = sqrt(mean squared distance to the centroid) = sqrt(sum of eigenvalues), asphericity = lam3 - (lam1+lam2)/2, acylindricity = lam2 - lam1, anisotropy = (b^2 + 3c^2/4)/Rg^4, fractal dimension = log10 N / log10 Rg, 2-D list [Rg, c, fd]. s2_integral = trapezoid sum of (g ln g - g + 1) r^(d-1). S2.__init__: rho = N / prod(boxlength). S2.particle_s2 (d=2,3; with and without savegr): S2[n,i] = -(d-1) pi rho trapz((g ln g - g + 1) r^(d-1)) with g_i(r_b) = (1/norm_b) sum_{j != i, |D_ij| < r_max} Gauss_{sigma(t_i,t_j)}(r_b - |D_ij|), r_b = (b+1/2) rdelta, norm_b = 2 pi rho r_b / 4 pi rho r_b^2, r_max = (ndelta - 1/2) rdelta, D_ij the remove_pbc image; particle_gr and the saved files equal the returned arrays. q8_tetrahedral: value = 1 - (3/32) sum_{j<k} (cos psi_jk + 1/3)^2 over four selected particles that are distinct, different from i and such that no other particle is closer; value 1 when all six cosines are -1/3; kth of argpartition in range for every N >= 5. NematicOrder.tensor (2-D; raw and neighbour-averaged; trace and eigenvalue branch): stored/saved Q = (d u u^T - I)/2 (neighbour mean of it when a list is given), result = sqrt(d/(d-1) tr Q^2) resp. 2 max eig(Q); for unit directors Q is symmetric traceless and the two scalars coincide (raw tensor). Inputs are never written (except gyration_tensor, see C18). Every numpy entry point the functions reference exists in the installed numpy (CPython probe).",
+    "note": "floats as reals (A1); assumed library contracts in pyvc/libext/C17.py (eig as Vieta relations for real symmetric input, argpartition relational, trapz = trapezoid sum, max over a symbolic axis, delete, sort <= 3, unique); remove_pbc and spatial_average enter through their callee contracts (C02, C16); one written loop summary (masked accumulation) with generated init/step obligations; sums over symbolic ranges are uninterpreted with unfold/extensionality instances; on the pinned tree two obligations fail with failing replays (np.trapz missing in numpy 2.5; argpartition kth out of range for N = 5) - fix diffs in design_notes/C17.fix-*.diff",
+}
